@@ -343,6 +343,10 @@ func checkC15(p *Prog, r *Report) {
 		rPure.Unproven("lib/uu:write-sites", token.NoPos, "only %d write/append/escape sites examined, at least 10 expected", nw)
 	}
 
+	ip := &idxProver{p: p, funcs: fns, cellLo: map[*ssa.Alloc]int64{}, chunkEq: map[*ssa.Function]int64{}}
+	ip.establishChunkLengths(ordered)
+	ip.establishCellInvariants(ordered)
+
 	/* 2. Shape. */
 	for _, f := range ordered {
 		bad := 0
@@ -353,7 +357,7 @@ func checkC15(p *Prog, r *Report) {
 		for _, b := range f.Blocks {
 			/* Back edges: a successor which dominates the block. */
 			for _, s := range b.Succs {
-				if s.Dominates(b) && !strings.HasPrefix(s.Comment, "rangeindex.loop") && !strings.HasPrefix(s.Comment, "rangeint.loop") && !isShrinkingLoop(p, s) && !isCountingLoop(s) {
+				if s.Dominates(b) && !strings.HasPrefix(s.Comment, "rangeindex.loop") && !strings.HasPrefix(s.Comment, "rangeint.loop") && !isShrinkingLoop(p, s) && !isCountingLoop(s) && !isResliceLoop(ip, s) {
 					if len(b.Instrs) > 0 {
 						fail("loop@"+s.Comment, b.Instrs[len(b.Instrs)-1], "a loop which is not a range over a slice, array or integer (%s): termination is not evident from its shape", s.Comment)
 					}
@@ -420,9 +424,6 @@ func checkC15(p *Prog, r *Report) {
 	/* Index safety. */
 	{
 		rIdx := r.Rule("index-safety", "every index and slice operation of the codec is within bounds on all inputs (no run-time panic)")
-		ip := &idxProver{p: p, funcs: fns, cellLo: map[*ssa.Alloc]int64{}, chunkEq: map[*ssa.Function]int64{}}
-		ip.establishChunkLengths(ordered)
-		ip.establishCellInvariants(ordered)
 		n := 0
 		for _, f := range ordered {
 			per := 0
@@ -1098,6 +1099,63 @@ func isShrinkingLoop(p *Prog, h *ssa.BasicBlock) bool {
 		}
 		/* The body is entered over the "non-empty" edge. */
 		if !h.Succs[0].Dominates(c.Block()) && h.Succs[0] != c.Block() {
+			return false
+		}
+	}
+	return nback > 0
+}
+
+// isResliceLoop: the loop headed by h runs while a slice is non-empty and every
+// way round replaces the slice by itself less a front piece which is proved
+// to be at least one element long (rest = rest[n:], n ≥ 1): it terminates.
+func isResliceLoop(ip *idxProver, h *ssa.BasicBlock) bool {
+	ifi := blockIf(h)
+	if nil == ifi {
+		return false
+	}
+	bo, ok := ifi.Cond.(*ssa.BinOp)
+	if !ok {
+		return false
+	}
+	x, y, op := bo.X, bo.Y, bo.Op
+	if k, isC := constInt(x); isC && 0 == k {
+		x, y = y, x
+		switch op {
+		case token.LSS:
+			op = token.GTR
+		case token.GTR:
+			op = token.LSS
+		}
+	}
+	if k, isC := constInt(y); !isC || 0 != k || (token.NEQ != op && token.GTR != op) {
+		return false
+	}
+	lc, ok := x.(*ssa.Call)
+	if !ok {
+		return false
+	}
+	if bi, isB := lc.Common().Value.(*ssa.Builtin); !isB || "len" != bi.Name() {
+		return false
+	}
+	ph, ok := lc.Common().Args[0].(*ssa.Phi)
+	if !ok || ph.Block() != h {
+		return false
+	}
+	nback := 0
+	for k, e := range ph.Edges {
+		if !h.Dominates(h.Preds[k]) {
+			continue
+		}
+		nback++
+		sl, ok := e.(*ssa.Slice)
+		if !ok || sl.X != ssa.Value(ph) || nil == sl.Low || nil != sl.High {
+			return false
+		}
+		if !h.Succs[0].Dominates(sl.Block()) && h.Succs[0] != sl.Block() {
+			return false
+		}
+		f := ip.factsAt(sl)
+		if !ip.prove(func(f *ifacts) lterm { return ip.norm(sl.Low, f).add(tConst(1), -1) }, f, 0) {
 			return false
 		}
 	}
